@@ -137,4 +137,55 @@ def leftovers (d : Dev) : List String :=
   ((d.groups.map (·.1)).filter fun g => isTagged g && !groupReferenced d g).map ("object-group " ++ ·) ++
   ((d.acls.map (·.1)).filter fun a => isTagged a && !aclBound d a).map ("access-list " ++ ·)
 
+
+
+/-! ## Order of object creation and use (C08, syntactic part) -/
+
+/-- Object-groups that exist after a command, given those that exist before. -/
+def defStep (defd : List Name) : Chg → List Name
+  | .grp n => if defd.contains n then defd else n :: defd
+  | .noGrp n => defd.filter (· != n)
+  | .join a b => defStep (defStep defd a) b
+  | _ => defd
+
+/-- Every object-group referenced by an added access-list line exists. -/
+def usesDefined (defd : List Name) : Chg → Bool
+  | .acl _ _ l => l.names.all defd.contains
+  | .join a b => usesDefined defd a && usesDefined (defStep defd a) b
+  | _ => true
+
+def defAfter (defd : List Name) (cs : List Chg) : List Name := cs.foldl defStep defd
+
+/-- In the script every object-group is created before the first access-list line that references it
+(and is not removed before a later use). -/
+def createdBeforeUse (defd : List Name) : List Chg → Bool
+  | [] => true
+  | c :: cs => usesDefined defd c && createdBeforeUse (defStep defd c) cs
+
+/-- Commands that add an access-list line. -/
+def addsLine : Chg → Bool
+  | .acl .. => true
+  | .join a b => addsLine a || addsLine b
+  | _ => false
+
+/-- Commands that remove an object (`no object-group`, `clear configure access-list`). -/
+def removesObject : Chg → Bool
+  | .noGrp _ => true
+  | .clearAcl _ => true
+  | .join a b => removesObject a || removesObject b
+  | _ => false
+
+end NA.AsaDev
+
+namespace NA.AsaDev
+open NA.F1
+
+/-- The device state as a configuration to compare again (routes carry no parsed destination here;
+used for route-free examples). -/
+def toConfig (d : Dev) : Config :=
+  { intfs := d.intfs, groups := d.groups,
+    acls := d.acls.map fun a => (a.1, a.2.map fun l => (⟨l.body, l.nolog, l.names⟩ : Line)),
+    binds := d.binds.map fun b => ⟨b.2, b.1.1, b.1.2⟩,
+    routes := d.routes.map fun r => ⟨r, r, 0⟩ }
+
 end NA.AsaDev
